@@ -261,3 +261,61 @@ pub fn c06(rng: &mut impl Rng, len: usize) -> Vec<Value> {
     }
     evs
 }
+
+/// C07: one flow throttling rule and/or one hotspot throttling rule on a resource.
+/// Arrival instants are requests; the executor logs the instant a call really happened at
+/// (a queued call returns later than it arrived, the next call cannot arrive before that).
+pub fn c07(rng: &mut impl Rng, len: usize) -> Vec<Value> {
+    let t0 = rng.gen_range(0..20000u64);
+    let mut evs = vec![json!({"e": "reset", "t": t0, "obs": 0, "cfg": {"nt": 20, "It": 10000, "n": 2, "I": 1000}})];
+    let mut t = t0;
+    let mode = rng.gen_range(0..5); // 0,1 flow only; 2,3 hot only; 4 both
+    let mut flw = Vec::new();
+    let mut hot = Vec::new();
+    let mut spacing = 100u64;
+    if mode != 2 && mode != 3 {
+        let thr = *pick(rng, &[[1u64, 1], [2, 1], [3, 1], [5, 2], [10, 1], [100, 1], [1000, 1], [0, 1], [7, 1]]);
+        let iv = *pick(rng, &[0u64, 100, 200, 1000, 3000, 10000]);
+        let maxq = *pick(rng, &[0u64, 1, 50, 500, 1000, 2000]);
+        spacing = if thr[0] == 0 { 100 } else { (if iv == 0 { 1000 } else { iv }) * thr[1] / thr[0] };
+        flw.push(json!({"id": "f1", "res": "r1", "calc": "direct", "ctl": "throttling", "thr": thr, "I": iv, "maxq": maxq}));
+    }
+    if mode >= 2 {
+        let q = rng.gen_range(0..=5u64);
+        let dur = rng.gen_range(1..=3u64);
+        let mut spec = serde_json::Map::new();
+        if rng.gen_bool(0.4) {
+            spec.insert("b".into(), json!(rng.gen_range(0..=3u64)));
+        }
+        if mode != 4 {
+            spacing = if q == 0 { 100 } else { dur * 1000 / q };
+        }
+        hot.push(json!({"id": "h1", "res": "r1", "metric": "qps", "ctl": "throttling", "idx": 0, "key": "", "thr": q,
+            "dur": dur, "maxq": *pick(rng, &[0u64, 1, 300, 1000, 2000]), "spec": spec, "burst": 0, "cap": 0}));
+    }
+    evs.push(json!({"e": "load", "fam": "flow", "op": "all", "t": t, "rules": flw}));
+    evs.push(json!({"e": "load", "fam": "hot", "op": "all", "t": t, "rules": hot}));
+    let vals = ["a", "b", "c"];
+    for id in 0..len as u64 {
+        // requested arrival: relative to the previous REQUESTED instant; the executor moves it
+        // forward to the clock if the previous call was held longer
+        t += match rng.gen_range(0..10) {
+            0..=2 => 0,
+            3 => 1,
+            4 => spacing,
+            5 => spacing.saturating_sub(1),
+            6 => spacing + 1,
+            7 => rng.gen_range(0..=spacing.max(1)),
+            8 => rng.gen_range(0..=3 * spacing.max(1)),
+            _ => spacing / 2,
+        };
+        let n = match rng.gen_range(0..8) {
+            0 => 0,
+            1 => 2,
+            2 => 3,
+            _ => 1,
+        };
+        evs.push(json!({"e": "enter", "id": id + 1, "res": "r1", "n": n, "t": t, "args": [*pick(rng, &vals)]}));
+    }
+    evs
+}
